@@ -44,13 +44,14 @@ MUTANTS = [
     ("C14", "processor/trigger_handler.py", "            threading.settrace(self.__old_thread_trace)\n", "            threading.settrace(self.__old_sys_trace)\n"),
     ("C14", "processor/trigger_handler.py", "        self.__inert = True\n", ""),
     ("C03", "processor/trigger_handler.py", "                actions += trigger.actions\n", "                actions = trigger.actions\n"),
+    ("C20", "processor/context/span_action.py", "        if self.trigger_context.config.has_span_processor:\n            return super().can_trigger()\n        return False", "        return super().can_trigger()"),
     ("C17", "processor/context/metric_action.py", "        if self.__has_metric_processor():\n            return super().can_trigger()\n        return False", "        return super().can_trigger()"),
 ]
 FULL = "--full" in sys.argv          # run the whole quick check of the mutant's property: is a concrete failing input found too?
 sel = [a for a in sys.argv[1:] if a != "--full"]
 if sel:
     MUTANTS = [m for m in MUTANTS if m[0] in sel]
-ALL = ["C02", "C03", "C04", "C05", "C10", "C11", "C12", "C13", "C14", "C15", "C17", "C18", "C19"]
+ALL = ["C02", "C03", "C04", "C05", "C10", "C11", "C12", "C13", "C14", "C15", "C17", "C18", "C19", "C20"]
 
 
 def verdicts():
